@@ -19,6 +19,7 @@ import subprocess
 import sys
 
 FN_RE = re.compile(r"^fn (.+?)\((.*)\) -> (.+) \{$")
+CONST_RE = re.compile(r"^const (.+::promoted\[\d+\]|[^ <]+): (.+) = \{$")
 
 
 class Body:
@@ -87,6 +88,14 @@ def parse_mir(path):
             name = m.group(1)
             args = m.group(2)
             ret = m.group(3)
+            buf = []
+            continue
+        mc = CONST_RE.match(ln)
+        if mc and name is None:
+            # promoted constants and const items: bodies without arguments (evaluated on demand by Exec2)
+            name = mc.group(1)
+            args = ""
+            ret = mc.group(2)
             buf = []
             continue
         if name is not None:
